@@ -6,7 +6,7 @@ ID = "C04"
 MODULE = "Check.IoCheck"
 CASE_TYPE = "IOcase"
 CORR, ORACLE, HYP = "IOcorr", "C04oracle", "IOtrue"
-ORACLE_EXCUSING_KNOWN = "C04oracle_f19"
+# (F19 repaired: nothing is excused any more; C04oracle_f19 stays in IoCheck.v as a record of what was excused)
 K = 30
 DEN = 2 ** K
 RULE = ("random textgrids on a 2^-30 s grid mixing ordinary intervals, gaps and slivers of 1..50 ticks (threshold 1e-8 s = 10.74 "
